@@ -174,7 +174,7 @@ CONC = {
                 assumptions=['the adapter keeps a delivered item until Acknowledge succeeds for the id issued with that delivery (adapter contract)',
                              'an entry that cannot be decoded, or whose acknowledgement is refused, stays unacknowledged (redelivered after a crash)']),
     'C12': dict(module='Properties.C12', file='Properties/C12.v', slices=['job'],
-                families=['persist', 'recover'],
+                families=['persist', 'recover', 'dist'],
                 quick_episodes=300, thorough_episodes=4000,
                 diffs=[CODEC_DIFF], diff_footprint=['CJ', 'CP', 'CA', 'CM', 'validator:'], diff_oracles=['codec.'],
                 rule='records = observed job.Json() bytes for generated ids (every escape class of encoding/json, all of ASCII, '
